@@ -18,6 +18,7 @@ from bibtexparser.model import (
 from bibtexparser.splitter import Splitter
 from bibtexparser.writer import BibtexFormat
 
+from .. import bigdocs
 from ..canon import canon, content
 
 ID = "C06"
@@ -80,9 +81,51 @@ def bounds(tier):
     return {"universe": NAMES, "max_blocks": 2 if tier == "quick" else 3, "formats": len(formats(tier)), "routes": ["unparse_stack=[]", "default unparse stack"]}
 
 
+BIG_FORMATS = [("\t", 0, False, "\n\n", DEFAULT_PFC), ("", "auto", True, "", "% failed ({n} lines)"), ("  ", 9, False, "\n% --\n", DEFAULT_PFC), (" ", "auto", False, " ", "")]
+
+
+def check_big(n, acc):
+    """Parsed documents of n entries (plus strings, comments, a failed and a duplicate block), written under several
+    formats: the same laws, on libraries whose output has thousands of pieces."""
+    text, _ = bigdocs.document(n, 1)
+    text += "\n@article{Key0:x, dup = {d}}\n@broken{zz, a b}\n"
+    for spec in BIG_FORMATS:
+        for route in ("verbatim", "default"):
+            lib = bibtexparser.parse_string(text)
+            acc.count("big_libraries")
+            check_lib(("big", n), spec, acc, route, lib=lib, case_extra={"big": n})
+
+
+def check_history(acc):
+    """The same Library and BibtexFormat objects over a history of writes and in-place edits (longer / shorter keys,
+    added and removed fields and blocks): every write obeys the contract for the library as it is then."""
+    for spec in BIG_FORMATS + [("", "auto", False, "\n", DEFAULT_PFC)]:
+        for route in ("verbatim", "default"):
+            uni = universe()
+            lib = Library([uni["E1"], uni["S"], uni["E3"], uni["PF"], uni["E5"]])
+            steps = [
+                ("write", None),
+                ("set a longer key", lambda: uni["E1"].set_field(Field("quite_a_long_field_key_indeed", "{z}"))),
+                ("assign item", lambda: uni["E5"].__setitem__("x", "{1}")),
+                ("pop the longest", lambda: uni["E1"].pop("quite_a_long_field_key_indeed")),
+                ("pop another longest", lambda: uni["E3"].pop("averyveryverylongfieldkey")),
+                ("rename key", lambda: setattr(uni["E3"].fields[0], "key", "renamed_title_key")),
+                ("add block", lambda: lib.add(uni["E2"])),
+                ("remove block", lambda: lib.remove(uni["E3"])),
+                ("replace block", lambda: lib.replace(uni["E5"], uni["E0"])),
+            ]
+            done = []
+            for label, action in steps:
+                if action is not None:
+                    action()
+                done.append(label)
+                acc.count("history_writes")
+                check_lib(("history",) + tuple(done), spec, acc, route, lib=lib, case_extra={"history": list(done)})
+
+
 def shards(tier):
     maxb = 2 if tier == "quick" else 3
-    out = [("libs", ())]
+    out = [("libs", ()), ("history", 0)] + [("big", n) for n in (bigdocs.SIZES_QUICK if tier == "quick" else bigdocs.SIZES_THOROUGH)]
     for a in NAMES:
         if maxb == 2:
             out.append(("libs", (a,)))
@@ -128,14 +171,17 @@ def auto_column(blocks):
     return m + 3
 
 
-def check_lib(names, spec, acc, route):
-    uni = universe()
-    blocks = [uni[n] for n in names]
-    lib = Library(blocks)
+def check_lib(names, spec, acc, route, lib=None, case_extra=None):
+    if lib is None:
+        uni = universe()
+        blocks = [uni[n] for n in names]
+        lib = Library(blocks)
     fmt = mkformat(spec)
     fcanon = canon(fmt)
     lcanon = canon(lib)
     case = {"library": list(names), "format": list(spec), "route": route}
+    if case_extra:
+        case.update(case_extra)
     acc.trace()
     try:
         if route == "verbatim":
@@ -146,7 +192,7 @@ def check_lib(names, spec, acc, route):
         acc.exception(e, case, "write_string")
         acc.case()
         return
-    acc.case(sample=lambda: {"library": list(names), "format": list(spec), "route": route, "output": out}, nontrivial_key=(names, spec, route) if names else None)
+    acc.case(sample=(lambda: {"library": list(names), "format": list(spec), "route": route, "output": out}) if len(out) < 600 else None, nontrivial_key=(names, spec, route) if names else None)
     s = acc.step(("lib", names, route), ("write", spec), ("out", out))
     acc.outcome(out)
     if canon(fmt) != fcanon:
@@ -199,7 +245,7 @@ def check_lib(names, spec, acc, route):
                     ok = True
                     break
             if not ok:
-                what = "verbatim_raw" if b.raw not in out[pos:] else "configured_comment"
+                what = "verbatim_raw" if b.raw not in out[pos : pos + 4 * len(b.raw) + 400] else "configured_comment"
                 acc.violation(
                     {"oracle": "failed_block_rendering", "what": what, "block": type(b).__name__},
                     {"case": case, "observed": out[pos : pos + len(b.raw) + len(pfc) + 20], "expected": f"{pfc!r}.format(n=lines) + '\\n' + raw + '\\n'", "raw": b.raw},
@@ -248,6 +294,10 @@ def _clone(b):
 
 
 def run_shard(shard, tier, acc):
+    if shard[0] == "big":
+        return check_big(shard[1], acc)
+    if shard[0] == "history":
+        return check_history(acc)
     _, prefix = shard
     maxb = 2 if tier == "quick" else 3
     fs = formats(tier)
@@ -273,6 +323,10 @@ def run_shard(shard, tier, acc):
 
 
 def replay(case, acc):
+    if "big" in case:
+        return check_big(case["big"], acc)
+    if "history" in case:
+        return check_history(acc)
     check_lib(tuple(case["library"]), tuple(case["format"]), acc, case.get("route", "verbatim"))
 
 
